@@ -191,6 +191,24 @@ pub fn sweep_mbs(thorough: bool) -> Vec<u64> {
             v.push(frames::mb_bds60(&B60 { s_hdg: bits & 1, s_ias: (bits >> 1) & 1, s_mach: (bits >> 2) & 1, s_baro: (bits >> 3) & 1, s_ivv: (bits >> 4) & 1, ..b }));
         }
     }
+    // registers that carry the status bits of BOTH 5,0 and 6,0 (bits 1,12,13,24,35,46): the precedence
+    // 5,0 > 6,0 is decided by the plausibility of the 5,0 reading (|GS-TAS| < 200 etc.), so the fields
+    // that the two layouts share are swept on a grid around those limits
+    for b in b60_baselines() {
+        for mach in [1u32, 25, 50, 55, 100, 150, 195, 250, 300] {
+            for ivv_sign in 0..2 {
+                let mut ivv = 0;
+                while ivv < 512 {
+                    for hdg_lsb_roll in [1u32, 57, 285, 301] {
+                        // bit 12 = heading LSB must be 1 for the 5,0 track status; heading value odd
+                        let hdg = (hdg_lsb_roll << 1 | 1) & 0x3FF;
+                        v.push(frames::mb_bds60(&B60 { hdg_sign: 0, hdg, mach, ivv_sign, ivv, ..b }));
+                    }
+                    ivv += 7;
+                }
+            }
+        }
+    }
     // BDS 1,7: single capability bits, pairs with the 2,0 bit, a stride of all 2^24 words, reserved bits
     for i in 0..24 {
         v.push(frames::mb_bds17(1 << i));
